@@ -1523,3 +1523,761 @@ Lemma scalar_convex :
   (forall D, 0 <= D -> convex1 (fun t => r_cost (row_uni 0 D t))) /\
   (forall D Rr fl, D * Rr = 1 -> 0 < Rr -> 0 <= fl -> convex1 (fun t => r_cost (row_fric 0 D Rr fl t))).
 Proof. split; [exact row_eq_convex | split; [exact row_uni_convex | exact row_fric_convex]]. Qed.
+
+(* ------------------------------------------------------------------ cone Hessian = - d force / d jar (middle zone) *)
+Lemma nth_flat_grid (g : nat -> nat -> R) (n : nat) : forall m a b, (a < m)%nat -> (b < n)%nat ->
+  nth (a * n + b) (flat_map (fun k => map (g k) (seq 0 n)) (seq 0 m)) 0 = g a b.
+Proof.
+  assert (Hgen : forall m s a b, (a < m)%nat -> (b < n)%nat ->
+            nth (a * n + b) (flat_map (fun k => map (g k) (seq 0 n)) (seq s m)) 0 = g (s + a)%nat b).
+  { induction m as [|m IH]; intros s a b Ha Hb; [lia|].
+    cbn [seq flat_map]. destruct a as [|a].
+    - cbn [Nat.mul Nat.add]. rewrite app_nth1 by (rewrite map_length, seq_length; exact Hb).
+      rewrite (nth_indep _ 0 (g s 0%nat)) by (rewrite map_length, seq_length; exact Hb).
+      rewrite map_nth, seq_nth by exact Hb. rewrite Nat.add_0_r. reflexivity.
+    - rewrite app_nth2; rewrite map_length, seq_length; [|lia].
+      replace (S a * n + b - n)%nat with (a * n + b)%nat by lia.
+      rewrite IH by lia. f_equal. lia. }
+  intros m a b Ha Hb. rewrite Hgen by assumption. reflexivity.
+Qed.
+
+(* strictly inside the middle zone the zone selector is locally its third branch *)
+Lemma Zsel_local_mid (mu : R) (Nf Tf : R -> R) (x : R) :
+  continuous Nf x -> continuous Tf x -> Nf x < mu * Tf x -> 0 < mu * Nf x + Tf x ->
+  exists d, 0 < d /\ forall t, Rabs (t - x) < d -> forall a b c : R, Zsel mu (Nf t) (Tf t) a b c = c.
+Proof.
+  intros cN cT H1 H2.
+  assert (c1 : continuous (fun t => Nf t - mu * Tf t) x).
+  { apply (continuous_minus Nf (fun t => mu * Tf t)); [exact cN|]. apply (continuous_scal_r mu Tf x cT). }
+  assert (c2 : continuous (fun t => mu * Nf t + Tf t) x).
+  { apply (continuous_plus (fun t => mu * Nf t) Tf); [|exact cT]. apply (continuous_scal_r mu Nf x cN). }
+  destruct (locally_neg _ x c1 ltac:(lra)) as [d1 [Hd1 L1]].
+  destruct (locally_pos _ x c2 H2) as [d2 [Hd2 L2]].
+  destruct (two_radii _ _ x (ex_intro _ d1 (conj Hd1 L1)) (ex_intro _ d2 (conj Hd2 L2))) as [d [Hd L]].
+  exists d. split; [exact Hd|]. intros t Ht a b c. destruct (L t Ht) as [A B]. unfold Zsel.
+  destruct (Rle_dec (mu * Tf t) (Nf t)); [lra|]. destruct (Rle_dec (mu * Nf t + Tf t) 0); [lra | reflexivity].
+Qed.
+
+Lemma nth_upd_other {A} (l : list A) k j x d : (k < length l)%nat -> j <> k -> nth j (upd l k x) d = nth j l d.
+Proof.
+  revert k j. induction l as [|a l IH]; intros k j Hk Hjk; [simpl in Hk; lia|].
+  destruct k, j; try congruence; try reflexivity.
+  rewrite upd_S. cbn [nth]. apply IH; [simpl in Hk; lia | congruence].
+Qed.
+
+(* middle-zone force expressions *)
+Definition mf0 (mu D0 N T : R) : R := - Dmid mu D0 * (N - mu * T) * mu.
+Definition mfk (mu D0 N T u f : R) : R := Dmid mu D0 * (N - mu * T) * mu / T * u * f.
+
+Lemma Tk_ex_derive c f x : 0 < Tk c f x -> ex_derive (fun t : R => Tk c f t) x.
+Proof. intros H. exists (f * (x * f) / Tk c f x). apply Tk_derive. exact H. Qed.
+Lemma Tk_Derive c f x : 0 < Tk c f x -> Derive (fun t : R => Tk c f t) x = f * (x * f) / Tk c f x.
+Proof. intros H. apply is_derive_unique. apply Tk_derive. exact H. Qed.
+
+Lemma mf0_d0 mu D0 T (x : R) :
+  is_derive (fun t : R => mf0 mu D0 (t * mu) T) x (- (Dmid mu D0 * mu * mu)).
+Proof. unfold mf0. auto_derive; [exact I | lra]. Qed.
+
+Lemma mf0_dk mu D0 N c f (x : R) : 0 < Tk c f x ->
+  is_derive (fun t : R => mf0 mu D0 N (Tk c f t)) x (Dmid mu D0 * mu * mu * (f * (x * f) / Tk c f x)).
+Proof.
+  intros HT. unfold mf0. pose proof (Tk_ex_derive c f x HT) as Hex.
+  auto_derive; [repeat split; assumption|]. rewrite (Tk_Derive c f x HT). field. lra.
+Qed.
+
+Lemma mfk_d0 mu D0 T u g (x : R) : 0 < T ->
+  is_derive (fun t : R => mfk mu D0 (t * mu) T u g) x (Dmid mu D0 * mu * mu / T * u * g).
+Proof. intros HT. unfold mfk. auto_derive; [lra | field; lra]. Qed.
+
+Lemma mfk_dother mu D0 N c f u g (x : R) : 0 < Tk c f x ->
+  is_derive (fun t : R => mfk mu D0 N (Tk c f t) u g) x
+            (- (Dmid mu D0 * mu * N * u * g * (f * (x * f)) / (Tk c f x * Tk c f x * Tk c f x))).
+Proof.
+  intros HT. unfold mfk. pose proof (Tk_ex_derive c f x HT) as Hex.
+  auto_derive; [repeat split; try assumption; lra|]. rewrite (Tk_Derive c f x HT). field. lra.
+Qed.
+
+Lemma mfk_dsame mu D0 N c f (x : R) : 0 < Tk c f x ->
+  is_derive (fun t : R => mfk mu D0 N (Tk c f t) (t * f) f) x
+            (Dmid mu D0 * mu * f * f * (N / Tk c f x - mu - N * (x * f) * (x * f) / (Tk c f x * Tk c f x * Tk c f x))).
+Proof.
+  intros HT. unfold mfk. pose proof (Tk_ex_derive c f x HT) as Hex.
+  auto_derive; [repeat split; try assumption; lra|]. rewrite (Tk_Derive c f x HT). field. lra.
+Qed.
+
+Lemma block_ell_hess s mu fr D0 Dt x0 xt : 0 < mu ->
+  x0 * mu < mu * Tnorm xt fr -> 0 < mu * (x0 * mu) + Tnorm xt fr ->
+  snd (block_ell true s mu fr (D0 :: Dt) (x0 :: xt)) =
+  Some (hess mu (x0 * mu) (Tnorm xt fr) (Dmid mu D0) (x0 * mu :: map2 Rmult xt fr) (mu :: fr) (S (length xt))).
+Proof.
+  intros Hmu H1 H2. unfold block_ell. cbv zeta. rewrite mju_norm_R. num_R. fold (Tnorm xt fr).
+  assert (HT : 0 <= Tnorm xt fr) by apply sqrt_pos.
+  rewrite top_bool, bot_bool by assumption.
+  destruct (Rle_dec (mu * Tnorm xt fr) (x0 * mu)); [lra|].
+  destruct (Rle_dec (mu * (x0 * mu) + Tnorm xt fr) 0); [lra|].
+  cbn [snd length]. reflexivity.
+Qed.
+
+Lemma ell_hessian s mu fr D0 Dt (x0 : R) (xt : list R) : 0 < mu ->
+  length Dt = length xt -> (length xt <= length fr)%nat ->
+  x0 * mu < mu * Tnorm xt fr -> 0 < mu * (x0 * mu) + Tnorm xt fr ->
+  forall a b, (a < S (length xt))%nat -> (b < S (length xt))%nat ->
+  is_derive (fun t : R => nth a (e_force (block_ell true s mu fr (D0 :: Dt) (upd (x0 :: xt) b t))) 0)
+            (nth b (x0 :: xt) 0)
+            (- nth (a * S (length xt) + b)
+                   (hess mu (x0 * mu) (Tnorm xt fr) (Dmid mu D0) (x0 * mu :: map2 Rmult xt fr) (mu :: fr) (S (length xt))) 0).
+Proof.
+  intros Hmu Hl Hf H1 H2 a b Ha Hb.
+  assert (HT0 : 0 <= Tnorm xt fr) by apply sqrt_pos.
+  assert (HT : 0 < Tnorm xt fr) by (destruct (Req_dec (Tnorm xt fr) 0) as [E|E]; [rewrite E in *; nra | lra]).
+  unfold hess. rewrite nth_flat_grid by assumption.
+  assert (HU : forall j, (j < length xt)%nat -> nth (S j) (x0 * mu :: map2 Rmult xt fr) 0 = nth j xt 0 * nth j fr 0).
+  { intros j Hj. cbn [nth]. apply nth_map2; lia. }
+  destruct b as [|k].
+  - (* derivative along the normal coordinate *)
+    cbn [nth].
+    destruct (Zsel_local_mid mu (fun t => t * mu) (fun _ => Tnorm xt fr) x0) as [d [Hd L]]; try assumption.
+    { apply (ex_derive_continuous (fun t : R => t * mu)). auto_derive. exact I. }
+    { apply continuous_const. }
+    destruct a as [|j].
+    + apply (derive_local _ (fun t : R => mf0 mu D0 (t * mu) (Tnorm xt fr))).
+      { exists d. split; [exact Hd|]. intros t Ht. rewrite upd_0, block_ell_force0 by assumption. apply (L t Ht). }
+      replace (- hess_upper mu (x0 * mu) (Tnorm xt fr) (Dmid mu D0) (x0 * mu :: map2 Rmult xt fr) (mu :: fr) (Nat.min 0 0) (Nat.max 0 0))
+        with (- (Dmid mu D0 * mu * mu)) by (unfold hess_upper; cbn [Nat.min Nat.max nth]; num_R; ring).
+      apply mf0_d0.
+    + assert (Hj : (j < length xt)%nat) by lia.
+      apply (derive_local _ (fun t : R => mfk mu D0 (t * mu) (Tnorm xt fr) (nth j xt 0 * nth j fr 0) (nth j fr 0))).
+      { exists d. split; [exact Hd|]. intros t Ht. rewrite upd_0, block_ell_forceS by (assumption || lia). apply (L t Ht). }
+      replace (- hess_upper mu (x0 * mu) (Tnorm xt fr) (Dmid mu D0) (x0 * mu :: map2 Rmult xt fr) (mu :: fr) (Nat.min (S j) 0) (Nat.max (S j) 0))
+        with (Dmid mu D0 * mu * mu / Tnorm xt fr * (nth j xt 0 * nth j fr 0) * nth j fr 0).
+      2:{ unfold hess_upper. cbn [Nat.min Nat.max]. rewrite HU by exact Hj. cbn [nth]. num_R. field. lra. }
+      apply mfk_d0. exact HT.
+  - (* derivative along the tangential coordinate k *)
+    assert (Hk : (k < length xt)%nat) by lia.
+    assert (Hkf : (k < length fr)%nat) by lia.
+    cbn [nth].
+    set (x := nth k xt 0). set (f := nth k fr 0). set (c := ssq (map2 Rmult (upd xt k 0) fr)).
+    assert (ET : Tnorm xt fr = Tk c f x).
+    { rewrite <- (upd_nth_id xt k 0 Hk) at 1. apply Tnorm_upd; assumption. }
+    assert (ETt : forall t, Tnorm (upd xt k t) fr = Tk c f t) by (intros t; apply Tnorm_upd; assumption).
+    rewrite ET in *.
+    destruct (Zsel_local_mid mu (fun _ => x0 * mu) (Tk c f) x) as [d [Hd L]]; try assumption.
+    { apply continuous_const. }
+    { apply Tk_cont. }
+    destruct a as [|j].
+    + apply (derive_local _ (fun t : R => mf0 mu D0 (x0 * mu) (Tk c f t))).
+      { exists d. split; [exact Hd|]. intros t Ht. rewrite upd_S, block_ell_force0 by assumption. rewrite ETt. apply (L t Ht). }
+      replace (- hess_upper mu (x0 * mu) (Tk c f x) (Dmid mu D0) (x0 * mu :: map2 Rmult xt fr) (mu :: fr) (Nat.min 0 (S k)) (Nat.max 0 (S k)))
+        with (Dmid mu D0 * mu * mu * (f * (x * f) / Tk c f x)).
+      2:{ unfold hess_upper. cbn [Nat.min Nat.max]. rewrite HU by exact Hk. cbn [nth]. num_R. fold x f. field. lra. }
+      apply mf0_dk. exact HT.
+    + assert (Hj : (j < length xt)%nat) by lia.
+      destruct (Nat.eq_dec j k) as [Ejk|Njk].
+      * subst j.
+        apply (derive_local _ (fun t : R => mfk mu D0 (x0 * mu) (Tk c f t) (t * f) f)).
+        { exists d. split; [exact Hd|]. intros t Ht. rewrite upd_S, block_ell_forceS by (rewrite ?upd_length by assumption; assumption || lia).
+          rewrite ETt, nth_upd_same by assumption. fold f. apply (L t Ht). }
+        replace (- hess_upper mu (x0 * mu) (Tk c f x) (Dmid mu D0) (x0 * mu :: map2 Rmult xt fr) (mu :: fr) (Nat.min (S k) (S k)) (Nat.max (S k) (S k)))
+          with (Dmid mu D0 * mu * f * f * (x0 * mu / Tk c f x - mu - x0 * mu * (x * f) * (x * f) / (Tk c f x * Tk c f x * Tk c f x))).
+        2:{ unfold hess_upper. rewrite Nat.min_id, Nat.max_id, Nat.eqb_refl. rewrite HU by exact Hk. cbn [nth]. num_R. fold x f. field. lra. }
+        apply mfk_dsame. exact HT.
+      * apply (derive_local _ (fun t : R => mfk mu D0 (x0 * mu) (Tk c f t) (nth j xt 0 * nth j fr 0) (nth j fr 0))).
+        { exists d. split; [exact Hd|]. intros t Ht. rewrite upd_S, block_ell_forceS by (rewrite ?upd_length by assumption; assumption || lia).
+          rewrite ETt, nth_upd_other by assumption. apply (L t Ht). }
+        replace (- hess_upper mu (x0 * mu) (Tk c f x) (Dmid mu D0) (x0 * mu :: map2 Rmult xt fr) (mu :: fr) (Nat.min (S j) (S k)) (Nat.max (S j) (S k)))
+          with (- (Dmid mu D0 * mu * (x0 * mu) * (nth j xt 0 * nth j fr 0) * nth j fr 0 * (f * (x * f)) / (Tk c f x * Tk c f x * Tk c f x))).
+        2:{ unfold hess_upper.
+            destruct (Nat.lt_ge_cases j k) as [Hlt|Hge].
+            - rewrite Nat.min_l, Nat.max_r by lia.
+              replace (Nat.eqb (S j) (S k)) with false by (symmetry; apply Nat.eqb_neq; lia).
+              rewrite !HU by assumption. cbn [nth]. num_R. fold x f. field. lra.
+            - rewrite Nat.min_r, Nat.max_l by lia.
+              replace (Nat.eqb (S k) (S j)) with false by (symmetry; apply Nat.eqb_neq; lia).
+              rewrite !HU by assumption. cbn [nth]. num_R. fold x f. field. lra. }
+        apply mfk_dother. exact HT.
+Qed.
+
+(* ------------------------------------------------------------------ continuity of the forces on coordinate lines *)
+Lemma locally_radius (a : R) (P : R -> Prop) :
+  locally a P <-> exists d, 0 < d /\ forall x, Rabs (x - a) < d -> P x.
+Proof.
+  split.
+  - intros [eps He]. exists eps. split; [apply eps|]. intros x Hx. apply He. exact Hx.
+  - intros [d [Hd H]]. exists (mkposreal d Hd). intros x Hx. apply H. exact Hx.
+Qed.
+
+Lemma continuous_glue3 (f g1 g2 g3 : R -> R) a :
+  (exists d, 0 < d /\ forall x, Rabs (x - a) < d -> f x = g1 x \/ f x = g2 x \/ f x = g3 x) ->
+  g1 a = f a -> g2 a = f a -> g3 a = f a ->
+  continuous g1 a -> continuous g2 a -> continuous g3 a -> continuous f a.
+Proof.
+  intros Hloc E1 E2 E3 C1 C2 C3 P HP.
+  assert (L1 : locally a (fun x => P (g1 x))) by (apply C1; rewrite E1; exact HP).
+  assert (L2 : locally a (fun x => P (g2 x))) by (apply C2; rewrite E2; exact HP).
+  assert (L3 : locally a (fun x => P (g3 x))) by (apply C3; rewrite E3; exact HP).
+  apply locally_radius in L1. apply locally_radius in L2. apply locally_radius in L3.
+  destruct (two_radii _ _ a L1 L2) as [d12 [Hd12 L12]].
+  destruct (two_radii _ _ a (ex_intro _ d12 (conj Hd12 L12)) L3) as [d123 [Hd123 L123]].
+  destruct (two_radii _ _ a (ex_intro _ d123 (conj Hd123 L123)) Hloc) as [d [Hd L]].
+  apply locally_radius. exists d. split; [exact Hd|]. intros x Hx.
+  destruct (L x Hx) as [[[A1 A2] A3] [B|[B|B]]]; rewrite B; assumption.
+Qed.
+
+Lemma continuous_glue (f g h : R -> R) a :
+  (exists d, 0 < d /\ forall x, Rabs (x - a) < d -> f x = g x \/ f x = h x) ->
+  g a = f a -> h a = f a -> continuous g a -> continuous h a -> continuous f a.
+Proof.
+  intros [d [Hd Hloc]] E1 E2 C1 C2. apply (continuous_glue3 f g h h a); auto.
+  exists d. split; [exact Hd|]. intros x Hx. destruct (Hloc x Hx); auto.
+Qed.
+
+Lemma continuous_local (f g : R -> R) a :
+  (exists d, 0 < d /\ forall x, Rabs (x - a) < d -> f x = g x) -> continuous g a -> continuous f a.
+Proof.
+  intros [d [Hd Hloc]] C. apply (continuous_glue f g g a); auto.
+  - exists d. split; [exact Hd|]. intros x Hx. left. apply Hloc. exact Hx.
+  - symmetry. apply Hloc. rewrite Rminus_eq_0, Rabs_R0. exact Hd.
+  - symmetry. apply Hloc. rewrite Rminus_eq_0, Rabs_R0. exact Hd.
+Qed.
+
+(* continuity of a zone-wise defined function, away from the apex *)
+Lemma Zsel_continuous (mu : R) (Nf Tf bf cf : R -> R) (x : R) :
+  0 < mu -> (forall t, 0 <= Tf t) -> continuous Nf x -> continuous Tf x ->
+  0 < Tf x \/ Nf x <> 0 ->
+  (mu * Nf x + Tf x <= 0 -> continuous bf x) ->
+  (Nf x <= mu * Tf x -> 0 <= mu * Nf x + Tf x -> continuous cf x) ->
+  (mu * Nf x + Tf x = 0 -> bf x = cf x) ->
+  (Nf x = mu * Tf x -> cf x = 0) ->
+  continuous (fun t => Zsel mu (Nf t) (Tf t) 0 (bf t) (cf t)) x.
+Proof.
+  intros Hmu HT cN cT Hna Hbot Hmid Hvb Hvc.
+  pose (g1 := fun t => Nf t - mu * Tf t). pose (g2 := fun t => mu * Nf t + Tf t).
+  assert (c1 : continuous g1 x).
+  { unfold g1. apply (continuous_minus Nf (fun t => mu * Tf t)); [exact cN|]. apply (continuous_scal_r mu Tf x cT). }
+  assert (c2 : continuous g2 x).
+  { unfold g2. apply (continuous_plus (fun t => mu * Nf t) Tf); [|exact cT]. apply (continuous_scal_r mu Nf x cN). }
+  destruct (Rtotal_order (g1 x) 0) as [H1|[H1|H1]].
+  - destruct (locally_neg g1 x c1 H1) as [d1 [Hd1 L1]].
+    destruct (Rtotal_order (g2 x) 0) as [H2|[H2|H2]].
+    + destruct (locally_neg g2 x c2 H2) as [d2 [Hd2 L2]].
+      apply (continuous_local _ bf).
+      * destruct (two_radii _ _ x (ex_intro _ d1 (conj Hd1 L1)) (ex_intro _ d2 (conj Hd2 L2))) as [d [Hd L]].
+        exists d. split; [exact Hd|]. intros t Ht. destruct (L t Ht) as [A B]. unfold g1, g2 in A, B.
+        unfold Zsel. destruct (Rle_dec (mu * Tf t) (Nf t)); [lra|]. destruct (Rle_dec (mu * Nf t + Tf t) 0); [reflexivity | lra].
+      * apply Hbot. unfold g2 in H2. lra.
+    + apply (continuous_glue _ bf cf).
+      * exists d1. split; [exact Hd1|]. intros t Ht. specialize (L1 t Ht). unfold g1 in L1.
+        unfold Zsel. destruct (Rle_dec (mu * Tf t) (Nf t)); [lra|]. destruct (Rle_dec (mu * Nf t + Tf t) 0); auto.
+      * unfold Zsel. unfold g1, g2 in *. destruct (Rle_dec (mu * Tf x) (Nf x)); [lra|]. destruct (Rle_dec (mu * Nf x + Tf x) 0); [reflexivity | lra].
+      * unfold Zsel. unfold g1, g2 in *. destruct (Rle_dec (mu * Tf x) (Nf x)); [lra|]. destruct (Rle_dec (mu * Nf x + Tf x) 0); [symmetry; apply Hvb; lra | lra].
+      * apply Hbot. unfold g2 in H2. lra.
+      * apply Hmid; unfold g1, g2 in *; lra.
+    + destruct (locally_pos g2 x c2 H2) as [d2 [Hd2 L2]].
+      apply (continuous_local _ cf).
+      * destruct (two_radii _ _ x (ex_intro _ d1 (conj Hd1 L1)) (ex_intro _ d2 (conj Hd2 L2))) as [d [Hd L]].
+        exists d. split; [exact Hd|]. intros t Ht. destruct (L t Ht) as [A B]. unfold g1, g2 in A, B.
+        unfold Zsel. destruct (Rle_dec (mu * Tf t) (Nf t)); [lra|]. destruct (Rle_dec (mu * Nf t + Tf t) 0); [lra | reflexivity].
+      * apply Hmid; unfold g1, g2 in *; lra.
+  - unfold g1 in H1.
+    assert (HTp : 0 < Tf x).
+    { destruct Hna as [A|A]; [exact A|]. pose proof (HT x). destruct (Req_dec (Tf x) 0) as [E|E]; [|lra].
+      exfalso. apply A. rewrite E in H1. lra. }
+    assert (H2 : 0 < g2 x) by (unfold g2; nra).
+    destruct (locally_pos g2 x c2 H2) as [d2 [Hd2 L2]].
+    apply (continuous_glue _ (fun _ => 0) cf).
+    + exists d2. split; [exact Hd2|]. intros t Ht. specialize (L2 t Ht). unfold g2 in L2.
+      unfold Zsel. destruct (Rle_dec (mu * Tf t) (Nf t)); [left; reflexivity|].
+      destruct (Rle_dec (mu * Nf t + Tf t) 0); [lra | right; reflexivity].
+    + unfold Zsel. destruct (Rle_dec (mu * Tf x) (Nf x)); [reflexivity | lra].
+    + unfold Zsel. destruct (Rle_dec (mu * Tf x) (Nf x)); [apply Hvc; lra | lra].
+    + apply continuous_const.
+    + apply Hmid; unfold g2 in H2; lra.
+  - destruct (locally_pos g1 x c1 H1) as [d1 [Hd1 L1]].
+    apply (continuous_local _ (fun _ => 0)).
+    + exists d1. split; [exact Hd1|]. intros t Ht. specialize (L1 t Ht). unfold g1 in L1.
+      unfold Zsel. destruct (Rle_dec (mu * Tf t) (Nf t)); [reflexivity | lra].
+    + apply continuous_const.
+Qed.
+
+(* ... and at the apex, where all three zones meet *)
+Lemma Zsel_continuous_apex (mu : R) (Nf Tf bf cf : R -> R) (x : R) :
+  Nf x = 0 -> Tf x = 0 -> bf x = 0 -> cf x = 0 -> continuous bf x -> continuous cf x ->
+  continuous (fun t => Zsel mu (Nf t) (Tf t) 0 (bf t) (cf t)) x.
+Proof.
+  intros EN ET Eb Ec Cb Cc.
+  assert (E0 : Zsel mu (Nf x) (Tf x) 0 (bf x) (cf x) = 0).
+  { unfold Zsel. rewrite EN, ET. destruct (Rle_dec (mu * 0) 0); [reflexivity | lra]. }
+  apply (continuous_glue3 _ (fun _ => 0) bf cf).
+  - exists 1. split; [lra|]. intros t _. unfold Zsel.
+    destruct (Rle_dec (mu * Tf t) (Nf t)); [left; reflexivity|]. destruct (Rle_dec (mu * Nf t + Tf t) 0); auto.
+  - symmetry. exact E0.
+  - rewrite E0. exact Eb.
+  - rewrite E0. exact Ec.
+  - apply continuous_const.
+  - exact Cb.
+  - exact Cc.
+Qed.
+
+Lemma mf0_cont mu D0 (Nf Tf : R -> R) x : continuous Nf x -> continuous Tf x ->
+  continuous (fun t => mf0 mu D0 (Nf t) (Tf t)) x.
+Proof.
+  intros cN cT.
+  apply (continuous_ext (fun t => (- Dmid mu D0 * mu) * (Nf t - mu * Tf t))); [intros t; unfold mf0; cbv beta; lra|].
+  apply (continuous_scal_r (- Dmid mu D0 * mu) (fun t => Nf t - mu * Tf t)).
+  apply (continuous_minus Nf (fun t => mu * Tf t)); [exact cN|]. apply (continuous_scal_r mu Tf x cT).
+Qed.
+
+Lemma cont_lin (a : R) x : continuous (fun t : R => - (a * t)) x.
+Proof. apply (ex_derive_continuous (fun t : R => - (a * t))). auto_derive. exact I. Qed.
+Lemma cont_mul (a : R) x : continuous (fun t : R => t * a) x.
+Proof. apply (ex_derive_continuous (fun t : R => t * a)). auto_derive. exact I. Qed.
+
+Lemma mfk_zero mu D0 N T g : mfk mu D0 N T 0 g = 0.
+Proof. unfold mfk, Rdiv. ring. Qed.
+
+(* T = 0 forces every product jar_j * friction_j to vanish, and with rel_ok every D_j * jar_j *)
+Lemma Tnorm_zero xt fr : Tnorm xt fr = 0 -> forall j, nth j (map2 Rmult xt fr) 0 = 0.
+Proof.
+  intros E j. pose proof (Tnorm_sqr xt fr) as H. rewrite E in H.
+  assert (Hs : ssq (map2 Rmult xt fr) = 0) by lra.
+  apply ssq_zero_all in Hs. rewrite Forall_forall in Hs.
+  destruct (nth_in_or_default j (map2 Rmult xt fr) 0) as [Hin|Hd]; [apply Hs; exact Hin | exact Hd].
+Qed.
+
+Lemma apex_Dx mu fr D0 Dt xt j : 0 < mu -> rel_ok mu fr D0 Dt -> length Dt = length xt -> (length xt <= length fr)%nat ->
+  (j < length xt)%nat -> nth j xt 0 * nth j fr 0 = 0 -> nth j Dt 0 * nth j xt 0 = 0.
+Proof.
+  intros Hmu Hr Hl Hf Hj HU.
+  assert (Hm2 : 0 < mu * mu) by nra.
+  assert (E : nth j Dt 0 * nth j xt 0 * (mu * mu) = 0).
+  { replace (nth j Dt 0 * nth j xt 0 * (mu * mu)) with (nth j Dt 0 * (mu * mu) * nth j xt 0) by ring.
+    rewrite (Hr j) by lia.
+    replace (D0 * (nth j fr 0 * nth j fr 0) * nth j xt 0) with (D0 * nth j fr 0 * (nth j xt 0 * nth j fr 0)) by ring.
+    rewrite HU. ring. }
+  apply Rmult_integral in E. destruct E; [assumption | lra].
+Qed.
+
+Lemma ell_force_cont_at flg s mu fr D0 Dt (x0 : R) (xt : list R) a b : 0 < mu ->
+  length Dt = length xt -> (length xt <= length fr)%nat -> rel_ok mu fr D0 Dt ->
+  (a < S (length xt))%nat -> (b < S (length xt))%nat ->
+  continuous (fun u : R => nth a (e_force (block_ell flg s mu fr (D0 :: Dt) (upd (x0 :: xt) b u))) 0)
+             (nth b (x0 :: xt) 0).
+Proof.
+  intros Hmu Hl Hf Hr Ha Hb.
+  assert (Hm2 : 0 < mu * mu) by nra.
+  assert (HT0 : 0 <= Tnorm xt fr) by apply sqrt_pos.
+  destruct b as [|k].
+  - (* line along the normal coordinate: N = u*mu, T constant *)
+    cbn [nth]. set (T := Tnorm xt fr) in *.
+    destruct a as [|j].
+    + apply (continuous_ext (fun u : R => Zsel mu (u * mu) T 0 (- (D0 * u)) (mf0 mu D0 (u * mu) T))).
+      { intros u. rewrite upd_0, block_ell_force0 by assumption. reflexivity. }
+      destruct (Req_dec T 0) as [ET|ET]; [destruct (Req_dec x0 0) as [Ex|Ex]|].
+      * subst x0. apply (Zsel_continuous_apex mu (fun u => u * mu) (fun _ => T)); try lra.
+        -- unfold mf0. rewrite ET. ring.
+        -- apply cont_lin.
+        -- apply (mf0_cont mu D0 (fun u => u * mu) (fun _ => T)); [apply cont_mul | apply continuous_const].
+      * apply (Zsel_continuous mu (fun u => u * mu) (fun _ => T)); auto.
+        -- apply cont_mul.
+        -- apply continuous_const.
+        -- right. nra.
+        -- intros _. apply cont_lin.
+        -- intros _ _. apply (mf0_cont mu D0 (fun u => u * mu) (fun _ => T)); [apply cont_mul | apply continuous_const].
+        -- intros H. exfalso. rewrite ET in H. nra.
+        -- intros H. unfold mf0. replace (x0 * mu - mu * T) with 0 by lra. ring.
+      * apply (Zsel_continuous mu (fun u => u * mu) (fun _ => T)); auto.
+        -- apply cont_mul.
+        -- apply continuous_const.
+        -- left. lra.
+        -- intros _. apply cont_lin.
+        -- intros _ _. apply (mf0_cont mu D0 (fun u => u * mu) (fun _ => T)); [apply cont_mul | apply continuous_const].
+        -- intros H. assert (E : T = - (mu * mu * x0)) by lra. unfold mf0, Dmid. rewrite E. field. nra.
+        -- intros H. unfold mf0. replace (x0 * mu - mu * T) with 0 by lra. ring.
+    + assert (Hj : (j < length xt)%nat) by lia.
+      set (u0 := nth j xt 0 * nth j fr 0). set (g := nth j fr 0).
+      apply (continuous_ext (fun u : R => Zsel mu (u * mu) T 0 (- (nth j Dt 0 * nth j xt 0)) (mfk mu D0 (u * mu) T u0 g))).
+      { intros u. rewrite upd_0, block_ell_forceS by (assumption || lia). reflexivity. }
+      destruct (Req_dec T 0) as [ET|ET]; [destruct (Req_dec x0 0) as [Ex|Ex]|].
+      * (* apex *)
+        assert (EU : u0 = 0) by (unfold u0; rewrite <- (nth_map2 Rmult) by lia; apply Tnorm_zero; exact ET).
+        subst x0. apply (Zsel_continuous_apex mu (fun u => u * mu) (fun _ => T)); try lra.
+        -- rewrite (apex_Dx mu fr D0 Dt xt j) by assumption. ring.
+        -- rewrite EU. apply mfk_zero.
+        -- apply continuous_const.
+        -- apply (continuous_ext (fun _ => 0)); [intros u; rewrite EU, mfk_zero; reflexivity | apply continuous_const].
+      * apply (Zsel_continuous mu (fun u => u * mu) (fun _ => T)); auto.
+        -- apply cont_mul.
+        -- apply continuous_const.
+        -- right. nra.
+        -- intros _. apply continuous_const.
+        -- intros H1 H2. exfalso. rewrite ET in *. nra.
+        -- intros H. exfalso. rewrite ET in H. nra.
+        -- intros H. exfalso. rewrite ET in H. nra.
+      * assert (HTp : 0 < T) by lra.
+        apply (Zsel_continuous mu (fun u => u * mu) (fun _ => T)); auto.
+        -- apply cont_mul.
+        -- apply continuous_const.
+        -- intros _. apply continuous_const.
+        -- intros _ _. apply (ex_derive_continuous (fun u : R => mfk mu D0 (u * mu) T u0 g)).
+           eexists. apply mfk_d0. exact HTp.
+        -- intros H. destruct (ell_boundary_bottom mu fr D0 Dt x0 xt Hmu Hl Hf Hr H HTp) as [_ [_ Hk]].
+           symmetry. apply (Hk j Hj).
+        -- intros H. unfold mfk. replace (x0 * mu - mu * T) with 0 by lra. unfold Rdiv. ring.
+  - (* line along the tangential coordinate k: N constant, T = Tk c f u *)
+    assert (Hk : (k < length xt)%nat) by lia.
+    assert (Hkf : (k < length fr)%nat) by lia.
+    cbn [nth].
+    set (x := nth k xt 0). set (f := nth k fr 0). set (c := ssq (map2 Rmult (upd xt k 0) fr)). set (N := x0 * mu).
+    assert (ET : Tnorm xt fr = Tk c f x).
+    { rewrite <- (upd_nth_id xt k 0 Hk) at 1. apply Tnorm_upd; assumption. }
+    assert (ETt : forall t, Tnorm (upd xt k t) fr = Tk c f t) by (intros t; apply Tnorm_upd; assumption).
+    assert (Hc : 0 <= c) by apply ssq_nonneg.
+    pose proof (Tk_sqr c f x Hc) as HT2. pose proof (Tk_nonneg c f x) as HTx.
+    (* facts at the apex *)
+    assert (Hapex : Tk c f x = 0 -> c = 0 /\ x * f = 0).
+    { intros E. rewrite E in HT2. pose proof (Rle_0_sqr (x * f)) as Hs. unfold Rsqr in Hs. split; nra. }
+    destruct a as [|j].
+    + apply (continuous_ext (fun u : R => Zsel mu N (Tk c f u) 0 (- (D0 * x0)) (mf0 mu D0 N (Tk c f u)))).
+      { intros u. rewrite upd_S, block_ell_force0 by assumption. rewrite ETt. reflexivity. }
+      destruct (Rlt_or_le 0 (Tk c f x)) as [HTp|HTz]; [|destruct (Req_dec N 0) as [EN|EN]].
+      * apply (Zsel_continuous mu (fun _ => N) (Tk c f)); auto.
+        -- apply Tk_nonneg.
+        -- apply continuous_const.
+        -- apply Tk_cont.
+        -- intros _. apply continuous_const.
+        -- intros _ _. apply (mf0_cont mu D0 (fun _ => N) (Tk c f)); [apply continuous_const | apply Tk_cont].
+        -- intros H. assert (E : Tk c f x = - (mu * N)) by lra. unfold mf0, Dmid, N in *. rewrite E. field. nra.
+        -- intros H. unfold mf0. replace (N - mu * Tk c f x) with 0 by lra. ring.
+      * assert (E0 : Tk c f x = 0) by lra. assert (Ex0 : x0 = 0) by (unfold N in EN; nra).
+        apply (Zsel_continuous_apex mu (fun _ => N) (Tk c f)); auto.
+        -- rewrite Ex0. ring.
+        -- unfold mf0. rewrite EN, E0. ring.
+        -- apply continuous_const.
+        -- apply (mf0_cont mu D0 (fun _ => N) (Tk c f)); [apply continuous_const | apply Tk_cont].
+      * assert (E0 : Tk c f x = 0) by lra.
+        apply (Zsel_continuous mu (fun _ => N) (Tk c f)); auto.
+        -- apply Tk_nonneg.
+        -- apply continuous_const.
+        -- apply Tk_cont.
+        -- intros _. apply continuous_const.
+        -- intros _ _. apply (mf0_cont mu D0 (fun _ => N) (Tk c f)); [apply continuous_const | apply Tk_cont].
+        -- intros H. exfalso. rewrite E0 in H. nra.
+        -- intros H. exfalso. rewrite E0 in H. nra.
+    + assert (Hj : (j < length xt)%nat) by lia.
+      destruct (Nat.eq_dec j k) as [Ejk|Njk].
+      * subst j.
+        apply (continuous_ext (fun u : R => Zsel mu N (Tk c f u) 0 (- (nth k Dt 0 * u)) (mfk mu D0 N (Tk c f u) (u * f) f))).
+        { intros u. rewrite upd_S, block_ell_forceS by (rewrite ?upd_length by assumption; assumption || lia).
+          rewrite ETt, nth_upd_same by assumption. reflexivity. }
+        destruct (Rlt_or_le 0 (Tk c f x)) as [HTp|HTz]; [|destruct (Req_dec N 0) as [EN|EN]].
+        -- apply (Zsel_continuous mu (fun _ => N) (Tk c f)); auto.
+           ++ apply Tk_nonneg.
+           ++ apply continuous_const.
+           ++ apply Tk_cont.
+           ++ intros _. apply cont_lin.
+           ++ intros _ _. apply (ex_derive_continuous (fun u : R => mfk mu D0 N (Tk c f u) (u * f) f)).
+              eexists. apply mfk_dsame. exact HTp.
+           ++ intros H. rewrite <- ET in H, HTp. unfold N in H.
+              destruct (ell_boundary_bottom mu fr D0 Dt x0 xt Hmu Hl Hf Hr H HTp) as [_ [_ Hkk]].
+              rewrite <- ET. symmetry. apply (Hkk k Hk).
+           ++ intros H. unfold mfk. replace (N - mu * Tk c f x) with 0 by lra. unfold Rdiv. ring.
+        -- (* apex *)
+           assert (E0 : Tk c f x = 0) by lra. destruct (Hapex E0) as [Ec Exf].
+           apply (Zsel_continuous_apex mu (fun _ => N) (Tk c f)); auto.
+           ++ cbv beta. unfold x. rewrite (apex_Dx mu fr D0 Dt xt k) by assumption. ring.
+           ++ rewrite Exf. apply mfk_zero.
+           ++ apply cont_lin.
+           ++ apply (continuous_ext (fun u : R => - (Dmid mu D0 * mu * mu * f * f * u))).
+              { intros u. match goal with |- @eq _ ?a ?b => change (@eq R a b) end. unfold mfk. rewrite EN.
+                pose proof (Tk_sqr c f u Hc) as Hu2. pose proof (Tk_nonneg c f u) as Hu.
+                destruct (Req_dec (Tk c f u) 0) as [Eu|Eu].
+                - rewrite Eu in Hu2. assert (Z : u * f = 0) by nra.
+                  rewrite Z. unfold Rdiv. replace (Dmid mu D0 * mu * mu * f * f * u) with (Dmid mu D0 * mu * mu * f * (u * f)) by ring.
+                  rewrite Z. ring.
+                - field. exact Eu. }
+              apply (ex_derive_continuous (fun u : R => - (Dmid mu D0 * mu * mu * f * f * u))). auto_derive. exact I.
+        -- assert (E0 : Tk c f x = 0) by lra.
+           apply (Zsel_continuous mu (fun _ => N) (Tk c f)); auto.
+           ++ apply Tk_nonneg.
+           ++ apply continuous_const.
+           ++ apply Tk_cont.
+           ++ intros _. apply cont_lin.
+           ++ intros H1 H2. exfalso. rewrite E0 in *. nra.
+           ++ intros H. exfalso. rewrite E0 in H. nra.
+           ++ intros H. exfalso. rewrite E0 in H. nra.
+      * set (u0 := nth j xt 0 * nth j fr 0). set (g := nth j fr 0).
+        apply (continuous_ext (fun u : R => Zsel mu N (Tk c f u) 0 (- (nth j Dt 0 * nth j xt 0)) (mfk mu D0 N (Tk c f u) u0 g))).
+        { intros u. rewrite upd_S, block_ell_forceS by (rewrite ?upd_length by assumption; assumption || lia).
+          rewrite ETt, nth_upd_other by assumption. reflexivity. }
+        destruct (Rlt_or_le 0 (Tk c f x)) as [HTp|HTz]; [|destruct (Req_dec N 0) as [EN|EN]].
+        -- apply (Zsel_continuous mu (fun _ => N) (Tk c f)); auto.
+           ++ apply Tk_nonneg.
+           ++ apply continuous_const.
+           ++ apply Tk_cont.
+           ++ intros _. apply continuous_const.
+           ++ intros _ _. apply (ex_derive_continuous (fun u : R => mfk mu D0 N (Tk c f u) u0 g)).
+              eexists. apply mfk_dother. exact HTp.
+           ++ intros H. rewrite <- ET in H, HTp. unfold N in H.
+              destruct (ell_boundary_bottom mu fr D0 Dt x0 xt Hmu Hl Hf Hr H HTp) as [_ [_ Hkk]].
+              rewrite <- ET. symmetry. apply (Hkk j Hj).
+           ++ intros H. unfold mfk. replace (N - mu * Tk c f x) with 0 by lra. unfold Rdiv. ring.
+        -- (* apex *)
+           assert (E0 : Tk c f x = 0) by lra. rewrite <- ET in E0.
+           assert (EU : u0 = 0) by (unfold u0; rewrite <- (nth_map2 Rmult) by lia; apply Tnorm_zero; exact E0).
+           apply (Zsel_continuous_apex mu (fun _ => N) (Tk c f)); auto.
+           ++ rewrite <- ET. exact E0.
+           ++ rewrite (apex_Dx mu fr D0 Dt xt j) by assumption. ring.
+           ++ rewrite EU. apply mfk_zero.
+           ++ apply continuous_const.
+           ++ apply (continuous_ext (fun _ => 0)); [intros u; rewrite EU, mfk_zero; reflexivity | apply continuous_const].
+        -- assert (E0 : Tk c f x = 0) by lra.
+           apply (Zsel_continuous mu (fun _ => N) (Tk c f)); auto.
+           ++ apply Tk_nonneg.
+           ++ apply continuous_const.
+           ++ apply Tk_cont.
+           ++ intros _. apply continuous_const.
+           ++ intros H1 H2. exfalso. rewrite E0 in *. nra.
+           ++ intros H. exfalso. rewrite E0 in H. nra.
+           ++ intros H. exfalso. rewrite E0 in H. nra.
+Qed.
+
+(* ---- continuity of the scalar row forces *)
+Lemma row_eq_force_cont s D x : continuous (fun t : R => r_force (row_eq s D t)) x.
+Proof.
+  apply (continuous_ext (fun t : R => - (D * t))); [intros t; symmetry; apply row_eq_force|]. apply cont_lin.
+Qed.
+
+Lemma row_uni_force_cont s D x : continuous (fun t : R => r_force (row_uni s D t)) x.
+Proof.
+  apply (continuous_ext (fun t : R => if Rle_dec 0 t then 0 else - (D * t))); [intros t; symmetry; apply row_uni_force|].
+  destruct (Rtotal_order x 0) as [Hx|[Hx|Hx]].
+  - apply (continuous_local _ (fun t : R => - (D * t))); [|apply cont_lin].
+    exists (- x). split; [lra|]. intros t Ht. apply Rabs_def2 in Ht. destruct (Rle_dec 0 t); [lra | reflexivity].
+  - subst x. apply (continuous_glue _ (fun _ => 0) (fun t : R => - (D * t))).
+    + exists 1. split; [lra|]. intros t _. destruct (Rle_dec 0 t); auto.
+    + destruct (Rle_dec 0 0); [reflexivity | lra].
+    + destruct (Rle_dec 0 0); [ring | lra].
+    + apply continuous_const.
+    + apply cont_lin.
+  - apply (continuous_local _ (fun _ => 0)); [|apply continuous_const].
+    exists x. split; [lra|]. intros t Ht. apply Rabs_def2 in Ht. destruct (Rle_dec 0 t); [reflexivity | lra].
+Qed.
+
+Lemma cont_id x : continuous (fun t : R => t) x.
+Proof. apply continuous_id. Qed.
+
+Lemma hubg_cont a x : 0 <= a -> continuous (hubg a) x.
+Proof.
+  intros Ha. destruct (Req_dec a 0) as [Ea|Ea].
+  { subst a. apply (continuous_local _ (fun _ => 0)); [|apply continuous_const].
+    exists 1. split; [lra|]. intros t _. unfold hubg. destruct (Rle_dec t (- 0)), (Rle_dec 0 t); lra. }
+  assert (Hp : 0 < a) by lra.
+  destruct (Rtotal_order x (- a)) as [Hx|[Hx|Hx]].
+  - apply (continuous_local _ (fun _ => - a)); [|apply continuous_const].
+    exists (- a - x). split; [lra|]. intros t Ht. apply Rabs_def2 in Ht. unfold hubg. destruct (Rle_dec t (- a)); lra.
+  - apply (continuous_glue _ (fun _ => - a) (fun t => t)).
+    + exists a. split; [lra|]. intros t Ht. apply Rabs_def2 in Ht. unfold hubg.
+      destruct (Rle_dec t (- a)); [left; reflexivity|]. destruct (Rle_dec a t); [lra | right; reflexivity].
+    + unfold hubg. destruct (Rle_dec x (- a)); lra.
+    + unfold hubg. destruct (Rle_dec x (- a)); lra.
+    + apply continuous_const.
+    + apply cont_id.
+  - destruct (Rtotal_order x a) as [Hy|[Hy|Hy]].
+    + apply (continuous_local _ (fun t => t)); [|apply cont_id].
+      exists (Rmin (x + a) (a - x)). split; [apply Rmin_pos; lra|]. intros t Ht.
+      assert (H : Rabs (t - x) < x + a) by (eapply Rlt_le_trans; [exact Ht | apply Rmin_l]).
+      assert (H0 : Rabs (t - x) < a - x) by (eapply Rlt_le_trans; [exact Ht | apply Rmin_r]).
+      apply Rabs_def2 in H. apply Rabs_def2 in H0. unfold hubg.
+      destruct (Rle_dec t (- a)), (Rle_dec a t); lra.
+    + apply (continuous_glue _ (fun _ => a) (fun t => t)).
+      * exists a. split; [lra|]. intros t Ht. apply Rabs_def2 in Ht. unfold hubg.
+        destruct (Rle_dec t (- a)); [lra|]. destruct (Rle_dec a t); [left | right]; reflexivity.
+      * unfold hubg. destruct (Rle_dec x (- a)), (Rle_dec a x); lra.
+      * unfold hubg. destruct (Rle_dec x (- a)), (Rle_dec a x); lra.
+      * apply continuous_const.
+      * apply cont_id.
+    + apply (continuous_local _ (fun _ => a)); [|apply continuous_const].
+      exists (x - a). split; [lra|]. intros t Ht. apply Rabs_def2 in Ht. unfold hubg.
+      destruct (Rle_dec t (- a)), (Rle_dec a t); lra.
+Qed.
+
+Lemma row_fric_force_cont s D Rr fl x : D * Rr = 1 -> 0 < Rr -> 0 <= fl ->
+  continuous (fun t : R => r_force (row_fric s D Rr fl t)) x.
+Proof.
+  intros E HR Hf.
+  apply (continuous_ext (fun t : R => (- D) * hubg (Rr * fl) t)).
+  { intros t. rewrite row_fric_force by assumption. match goal with |- @eq _ ?a ?b => change (@eq R a b) end. ring. }
+  apply (continuous_scal_r (- D) (hubg (Rr * fl))). apply hubg_cont. apply Rmult_le_pos; lra.
+Qed.
+
+(* ---- one elliptic block of the loop, unfolded *)
+Lemma cu_loop_ell_step fuel flg ne nf (con : list (@contact R)) i s D Rr fl tp id (rows : list (@rowdesc R))
+      dim mu fr m (J : list R) :
+  (i <? ne)%Z = false -> (i <? ne + nf)%Z = false -> negb (tp =? CT_ELLIPTIC)%Z = false -> (0 <= id)%Z ->
+  nth_error con (Z.to_nat id) = Some (dim, mu, fr) -> Z.to_nat dim = S m -> (1 <= dim)%Z ->
+  (S m <= S (length rows))%nat -> length J = S (length rows) ->
+  let B := block_ell flg 0 mu fr (D :: map rD (firstn m rows)) (firstn (S m) J) in
+  cu_loop (S fuel) flg ne nf con i s (@cons (@rowdesc R) (D, Rr, fl, tp, id) rows) J =
+  res_app (e_force B) (repeat (e_state B) (S m)) (snd B)
+          (shift (s + e_cost B)
+                 (cu_loop fuel flg ne nf con (i + dim)%Z 0 (skipn (S m) (@cons (@rowdesc R) (D, Rr, fl, tp, id) rows)) (skipn (S m) J))).
+Proof.
+  intros E1 E2 E3 Hid E5 En Hdim Hn HJ B.
+  destruct J as [|j0 J]; [simpl in HJ; lia|].
+  cbn [cu_loop]. rewrite E1, E2, E3.
+  assert (E4 : (id <? 0)%Z = false) by (apply Z.ltb_ge; lia). rewrite E4, E5. cbv zeta. rewrite En.
+  match goal with |- context [if ?c then None else _] => assert (Ec : c = false) end.
+  { apply orb_false_iff; split; [apply orb_false_iff; split|].
+    - apply Z.ltb_ge. lia.
+    - apply Nat.ltb_ge. simpl length. exact Hn.
+    - apply Nat.ltb_ge. rewrite HJ. exact Hn. }
+  rewrite Ec. rewrite block_ell_tuple. cbv beta iota. rewrite cu_loop_acc. reflexivity.
+Qed.
+
+Lemma nth_const_cont (l : list R) a x : continuous (fun _ : R => nth a l 0) x.
+Proof. apply continuous_const. Qed.
+
+(* ---- every force component is continuous along every coordinate line *)
+Lemma cu_loop_force_cont : forall fuel flg ne nf con i s rows jar a k,
+  cu_wf fuel ne nf con i rows -> length jar = length rows -> (a < length jar)%nat -> (k < length jar)%nat ->
+  continuous (fun u : R => nth a (cu_force (cu_loop fuel flg ne nf con i s rows (upd jar k u))) 0) (nth k jar 0).
+Proof.
+  induction fuel as [|fuel IH]; intros flg ne nf con i s rows jar a k Hwf Hl Ha Hk;
+    destruct rows as [|[[[[D Rr] fl] tp] id] rows]; destruct jar as [|x jar]; try (simpl in Hl, Hk; lia).
+  { simpl in Hwf. contradiction. }
+  cbn [cu_wf] in Hwf. simpl in Hl.
+  (* a scalar first row with kernel K: shared argument *)
+  assert (Scalar : forall (K : R -> R -> R * R * Z),
+            (forall s0 t, K s0 t = (s0 + r_cost (K 0 t), r_force (K 0 t), snd (K 0 t))) ->
+            (forall y, continuous (fun t : R => r_force (K 0 t)) y) ->
+            cu_wf fuel ne nf con (i + 1)%Z rows ->
+            (forall J : list R, cu_loop (S fuel) flg ne nf con i s (@cons (@rowdesc R) (D, Rr, fl, tp, id) rows) J =
+               match J with
+               | [] => None
+               | y :: J' => let '(s', f, st) := K s y in res_cons f st (cu_loop fuel flg ne nf con (i + 1)%Z s' rows J')
+               end) ->
+            continuous (fun u : R => nth a (cu_force (cu_loop (S fuel) flg ne nf con i s (@cons (@rowdesc R) (D, Rr, fl, tp, id) rows) (upd (x :: jar) k u))) 0)
+                       (nth k (x :: jar) 0)).
+  { intros K Ktuple Kcont Hwf' Hstep.
+    destruct k as [|k].
+    - apply (continuous_ext (fun u : R => nth a (r_force (K 0 u) :: cu_force (cu_loop fuel flg ne nf con (i + 1)%Z 0 rows jar)) 0)).
+      { intros u. rewrite upd_0, Hstep. rewrite (Ktuple s u). cbv beta iota.
+        destruct (cu_loop_ok fuel flg ne nf con (i + 1)%Z 0 rows jar Hwf') as [A _]; [lia|].
+        rewrite (cu_loop_acc fuel flg ne nf con (i + 1)%Z (s + r_cost (K 0 u))). rewrite cu_force_res_cons by (apply shift_none_not; exact A). rewrite cu_force_shift. reflexivity. }
+      destruct a as [|a]; cbn [nth]; [apply Kcont | apply continuous_const].
+    - apply (continuous_ext (fun u : R => nth a (r_force (K 0 x) :: cu_force (cu_loop fuel flg ne nf con (i + 1)%Z (s + r_cost (K 0 x)) rows (upd jar k u))) 0)).
+      { intros u. rewrite upd_S, Hstep. rewrite (Ktuple s x). cbv beta iota.
+        destruct (cu_loop_ok fuel flg ne nf con (i + 1)%Z (s + r_cost (K 0 x)) rows (upd jar k u) Hwf') as [A _].
+        { rewrite upd_length; simpl in Hk; lia. }
+        rewrite cu_force_res_cons by exact A. reflexivity. }
+      destruct a as [|a]; cbn [nth]; [apply continuous_const|].
+      apply IH; [exact Hwf' | lia | simpl in Ha; lia | simpl in Hk; lia]. }
+  destruct (i <? ne)%Z eqn:E1.
+  { apply (Scalar (fun s0 t => row_eq s0 D t)); [intros; apply row_eq_tuple | intros; apply row_eq_force_cont | exact Hwf |].
+    intros J. destruct J; cbn [cu_loop]; [reflexivity|]. rewrite E1. reflexivity. }
+  destruct (i <? ne + nf)%Z eqn:E2.
+  { destruct Hwf as [[Hdr [HR Hfl]] Hwf].
+    apply (Scalar (fun s0 t => row_fric s0 D Rr fl t)); [intros; apply row_fric_tuple | intros; apply row_fric_force_cont; assumption | exact Hwf |].
+    intros J. destruct J; cbn [cu_loop]; [reflexivity|]. rewrite E1, E2. reflexivity. }
+  destruct (negb (tp =? CT_ELLIPTIC)%Z) eqn:E3.
+  { apply (Scalar (fun s0 t => row_uni s0 D t)); [intros; apply row_uni_tuple | intros; apply row_uni_force_cont | exact Hwf |].
+    intros J. destruct J; cbn [cu_loop]; [reflexivity|]. rewrite E1, E2, E3. reflexivity. }
+  clear Scalar.
+  (* elliptic block *)
+  destruct Hwf as [Hid Hwf].
+  destruct (nth_error con (Z.to_nat id)) as [[[dim mu] fr]|] eqn:E5; [|contradiction].
+  cbv zeta in Hwf. destruct Hwf as [Hdim [Hn [Hmu [Hfr [Hrel Hwf]]]]].
+  remember (Z.to_nat dim) as n eqn:En.
+  destruct n as [|m]; [exfalso; clear - En Hdim; lia|].
+  simpl length in Hn. replace (S m - 1)%nat with m in Hfr, Hrel by (clear; lia).
+  set (rows0 := @cons (@rowdesc R) (D, Rr, fl, tp, id) rows) in *.
+  set (Dt := map rD (firstn m rows)) in *.
+  set (Rst := skipn (S m) rows0) in *.
+  assert (Hfm : length (firstn m jar) = m) by (rewrite firstn_length; clear - Hn Hl; lia).
+  assert (Hdl : length Dt = length (firstn m jar)).
+  { unfold Dt. rewrite map_length, firstn_length, Hfm. clear - Hn. lia. }
+  assert (Hfl : (length (firstn m jar) <= length fr)%nat) by (rewrite Hfm; exact Hfr).
+  assert (Step : forall J : list R, length J = S (length rows) ->
+            cu_force (cu_loop (S fuel) flg ne nf con i s rows0 J) =
+            e_force (block_ell flg 0 mu fr (D :: Dt) (firstn (S m) J)) ++
+            cu_force (cu_loop fuel flg ne nf con (i + dim)%Z 0 Rst (skipn (S m) J))).
+  { intros J HJ. unfold rows0. rewrite (cu_loop_ell_step fuel flg ne nf con i s D Rr fl tp id rows dim mu fr m J) by (auto; lia).
+    cbv zeta. fold Dt. fold rows0. fold Rst.
+    destruct (cu_loop_ok fuel flg ne nf con (i + dim)%Z 0 Rst (skipn (S m) J) Hwf) as [A _].
+    { unfold Rst, rows0. rewrite !skipn_length. simpl length. clear - HJ. lia. }
+    rewrite cu_force_res_app by (apply shift_none_not; exact A). rewrite cu_force_shift. reflexivity. }
+  assert (Hx : firstn (S m) (x :: jar) = x :: firstn m jar) by reflexivity.
+  assert (HlenB : forall J : list R, length J = S (length rows) ->
+            length (e_force (block_ell flg 0 mu fr (D :: Dt) (firstn (S m) J))) = S m).
+  { intros J HJ. rewrite e_force_length; rewrite firstn_length, HJ.
+    - clear - Hn. lia.
+    - cbn [length]. rewrite Hdl, Hfm. clear - Hn. lia.
+    - clear - Hn Hfr. lia. }
+  destruct (Nat.lt_ge_cases k (S m)) as [Hkm|Hkm].
+  - (* the line moves a coordinate of this block *)
+    apply (continuous_ext (fun u : R => nth a (e_force (block_ell flg 0 mu fr (D :: Dt) (upd (x :: firstn m jar) k u)) ++
+                                               cu_force (cu_loop fuel flg ne nf con (i + dim)%Z 0 Rst (skipn (S m) (x :: jar)))) 0)).
+    { intros u. rewrite Step by (rewrite upd_length by assumption; simpl; lia).
+      rewrite firstn_upd_lt, skipn_upd_lt by assumption. rewrite Hx. reflexivity. }
+    destruct (Nat.lt_ge_cases a (S m)) as [Ham|Ham].
+    + apply (continuous_ext (fun u : R => nth a (e_force (block_ell flg 0 mu fr (D :: Dt) (upd (x :: firstn m jar) k u))) 0)).
+      { intros u. rewrite app_nth1; [reflexivity|].
+        rewrite e_force_length; rewrite upd_length; cbn [length]; rewrite ?Hdl, ?Hfm; try lia; try reflexivity. }
+      replace (nth k (x :: jar) 0) with (nth k (x :: firstn m jar) 0).
+      2:{ rewrite <- Hx. apply nth_firstn_lt. exact Hkm. }
+      apply ell_force_cont_at; try assumption; cbn [length]; rewrite Hfm; assumption.
+    + apply (continuous_ext (fun u : R => nth (a - S m) (cu_force (cu_loop fuel flg ne nf con (i + dim)%Z 0 Rst (skipn (S m) (x :: jar)))) 0)).
+      { intros u. rewrite app_nth2; rewrite e_force_length; rewrite ?upd_length; cbn [length]; rewrite ?Hdl, ?Hfm; try lia; try reflexivity. }
+      apply continuous_const.
+  - (* the line moves a coordinate after this block *)
+    apply (continuous_ext (fun u : R => nth a (e_force (block_ell flg 0 mu fr (D :: Dt) (firstn (S m) (x :: jar))) ++
+                                               cu_force (cu_loop fuel flg ne nf con (i + dim)%Z 0 Rst (upd (skipn (S m) (x :: jar)) (k - S m) u))) 0)).
+    { intros u. rewrite Step by (rewrite upd_length by assumption; simpl; lia).
+      rewrite firstn_upd_ge, skipn_upd_ge by assumption. reflexivity. }
+    pose proof (HlenB (x :: jar) ltac:(simpl; lia)) as HB.
+    destruct (Nat.lt_ge_cases a (S m)) as [Ham|Ham].
+    + apply (continuous_ext (fun u : R => nth a (e_force (block_ell flg 0 mu fr (D :: Dt) (firstn (S m) (x :: jar)))) 0)).
+      { intros u. rewrite app_nth1 by (rewrite HB; exact Ham). reflexivity. }
+      apply continuous_const.
+    + apply (continuous_ext (fun u : R => nth (a - S m) (cu_force (cu_loop fuel flg ne nf con (i + dim)%Z 0 Rst (upd (skipn (S m) (x :: jar)) (k - S m) u))) 0)).
+      { intros u. rewrite app_nth2 by (rewrite HB; exact Ham). rewrite HB. reflexivity. }
+      replace (nth k (x :: jar) 0) with (nth (k - S m) (skipn (S m) (x :: jar)) 0).
+      2:{ rewrite nth_skipn_add. f_equal. lia. }
+      apply IH; [exact Hwf | unfold Rst, rows0; rewrite !skipn_length; simpl length; clear - Hl; lia
+                | rewrite skipn_length; simpl length in *; lia | rewrite skipn_length; simpl length in *; lia].
+Qed.
+
+
+Theorem cu_force_line : forall flgH ne nf (con : list (@contact R)) (rows : list (@rowdesc R)) (jar : list R) a k,
+  cu_wf (length rows) ne nf con 0 rows -> length jar = length rows -> (a < length jar)%nat -> (k < length jar)%nat ->
+  forall t : R,
+    continuous (fun u : R => nth a (cu_force (constraint_update flgH ne nf con rows (upd jar k u))) 0) t.
+Proof.
+  intros flgH ne nf con rows jar a k Hwf Hl Ha Hk t. unfold constraint_update.
+  pose proof (cu_loop_force_cont (length rows) flgH ne nf con 0%Z 0 rows (upd jar k t) a k Hwf) as H.
+  rewrite upd_length in H by assumption. specialize (H Hl Ha Hk).
+  rewrite nth_upd_same in H by assumption.
+  eapply continuous_ext; [|exact H]. intros u. cbv beta. rewrite upd_upd by assumption. reflexivity.
+Qed.
+
+(* the Hessian statement restated by Props/C12.v *)
+Lemma ell_hessian_full s mu fr D0 Dt (x0 : R) (xt : list R) : 0 < mu ->
+  length Dt = length xt -> (length xt <= length fr)%nat ->
+  x0 * mu < mu * Tnorm xt fr -> 0 < mu * (x0 * mu) + Tnorm xt fr ->
+  exists H : list R,
+    snd (block_ell true s mu fr (D0 :: Dt) (x0 :: xt)) = Some H /\
+    e_state (block_ell true s mu fr (D0 :: Dt) (x0 :: xt)) = ST_CONE /\
+    forall a b, (a < S (length xt))%nat -> (b < S (length xt))%nat ->
+      nth (a * S (length xt) + b) H 0 = nth (b * S (length xt) + a) H 0 /\
+      is_derive (fun t : R => nth a (e_force (block_ell true s mu fr (D0 :: Dt) (upd (x0 :: xt) b t))) 0)
+                (nth b (x0 :: xt) 0) (- nth (a * S (length xt) + b) H 0).
+Proof.
+  intros Hmu Hl Hf H1 H2. eexists. split; [apply block_ell_hess; assumption|]. split.
+  - unfold block_ell, e_state. cbv zeta. rewrite mju_norm_R. num_R. fold (Tnorm xt fr).
+    assert (HT : 0 <= Tnorm xt fr) by apply sqrt_pos.
+    rewrite top_bool, bot_bool by assumption.
+    destruct (Rle_dec (mu * Tnorm xt fr) (x0 * mu)); [lra|].
+    destruct (Rle_dec (mu * (x0 * mu) + Tnorm xt fr) 0); [lra|]. reflexivity.
+  - intros a b Ha Hb. split; [|apply ell_hessian; assumption].
+    unfold hess. rewrite !nth_flat_grid by assumption. rewrite Nat.min_comm, Nat.max_comm. reflexivity.
+Qed.
